@@ -72,16 +72,21 @@ def alias_kinds(model, payload):
     st = DBFSStore(DBFSURI.parse("dbfs:/i"), DBFSURI.parse("dbfs:/d"), db, CommitType.FULL)
     bad = []
     cases = {"pickle": ({"a": [1, 2]}, pickle.dumps({"a": [1, 2]})), "string": ("héllo", "héllo".encode("utf-8")), "bytes": (b"\x00\x01abc", b"\x00\x01abc")}
-    for kind, (value, raw) in cases.items():
-        key = "legacy_" + kind
-        db.fs.files[str(st._blob_path(key))] = raw
-        db.fs.files[str(st._blob_meta_path(key))] = json.dumps({"protocol": "dbfs." + kind, "timestamp_millis": 0})
-        try:
-            got = st.fetch_blob(key)
-        except BaseException as e:
-            got = "<%s: %s>" % (type(e).__name__, e)
-        if got != value:
-            bad.append("legacy blob written by dbfs.%s decodes to %r, expected %r" % (kind, str(got)[:40], value))
+    # the metadata of a blob is a JSON record of which the store reads one field, the codec reference: records written by
+    # other releases may lack the other fields or carry more
+    shapes = {"with a timestamp": lambda ref: {"protocol": ref, "timestamp_millis": 0}, "with the codec reference only": lambda ref: {"protocol": ref}, "with additional fields": lambda ref: {"protocol": ref, "timestamp_millis": 5, "writer": "dds 0.7", "size": 12}}
+    for (kind, (value, raw)), (shape, mk) in [(c_, s_) for c_ in cases.items() for s_ in shapes.items()]:
+        for ref in ("dbfs." + kind, {"pickle": "local.pickle", "string": "local.string", "bytes": "local.bytes"}[kind]):
+            key = "legacy_%s_%d" % (kind, len(db.fs.files))
+            db.fs.files[str(st._blob_path(key))] = raw
+            db.fs.files[str(st._blob_meta_path(key))] = json.dumps(mk(ref))
+            try:
+                got = st.fetch_blob(key)
+                present = st.has_blob(key)
+            except BaseException as e:
+                got, present = "<%s: %s>" % (type(e).__name__, e), None
+            if got != value or present is not True:
+                bad.append("blob whose metadata record (%s) names %s decodes to %r (has_blob %r), expected %r" % (shape, ref, str(got)[:40], present, value))
     if bad:
         return {"reproduced": True, "detail": "; ".join(bad), "inputs": {"legacy_refs": list(cases)}}
     return {"reproduced": False, "detail": "legacy references decode with the codec of the same kind"}
